@@ -158,3 +158,149 @@ def split_jobs(tier):
                 for l in letters:
                     jobs.append((letters, tuple(sizes), perm, l))
     return jobs
+
+
+# ------------------------------------------------------------------------------------------------------------------------------
+# indexing by labels on the exact array domain: unusual but legal labels (the labelled-tensor domain identifies an item by its
+# text, so two dimensions with the SAME items, the labels 0 / "" and typed labels are evaluated here, with concrete item lists)
+INDEX_WORLDS = {
+    # name: list of (letter, name, items, dtype name or None)
+    "same-items": [("o", "Origin", ["EUR", "USA"], None), ("d", "Destination", ["EUR", "USA"], None), ("g", "Good", ["x", "y", "z"], None)],
+    "falsy-labels": [("n", "Number", [0, 1, 2], "int"), ("s", "Text", ["", "x"], "str")],
+    "typed-years": [("t", "Time", [2020, 2021, 2022], "int"), ("a", "Aa", ["a0", "a1"], "str")],
+}
+
+
+def case_index_exact(prog: Program, world, order, op, key_desc):
+    """key_desc: ('dict', {letter or name: item | [items]}) | ('tuple', (item, ...)) | ('item', item); expectation from the labels"""
+    it = SymInterp(prog)
+    spec = INDEX_WORLDS[world]
+    by_letter = {l: (l, n, its, dt) for l, n, its, dt in spec}
+    dims_spec = [by_letter[l] for l in order]
+    case = WCase({"op": op, "world": world, "dims": list(order), "key": repr(key_desc[1])})
+    qual = "FlodymArray.__getitem__" if op == "read" else "FlodymArray.__setitem__"
+    D = prog.cls("Dimension")
+    dims = []
+    for l, n, its, dt in dims_spec:
+        kw = dict(name=n, letter=l, items=list(its))
+        if dt:
+            kw["dtype"] = it.builtin(dt)
+        dims.append(it.construct(D, [], kw))
+    ds = it.construct(prog.cls("DimensionSet"), [], dict(dim_list=dims))
+    shape = tuple(len(s[2]) for s in dims_spec)
+    values = SArr(shape, [Rat.sym("v_" + "_".join(map(str, idx))) for idx in itertools.product(*[range(n) for n in shape])])
+    x = it.construct(prog.cls("FlodymArray"), [], dict(dims=ds, values=values, name="x"))
+    before = list(values.data)
+    # the selection the key MEANS: {position of the dimension: [positions of items]} and which dimensions are dropped
+    sel, dropped, unknown = {}, set(), False
+    kind_, payload = key_desc
+    pairs = []
+    if kind_ == "dict":
+        for k, v in payload.items():
+            hit = [i for i, s in enumerate(dims_spec) if k in (s[0], s[1])]
+            if len(hit) != 1:
+                unknown = True
+                continue
+            pairs.append((hit[0], v))
+    else:
+        for item in (payload if kind_ == "tuple" else (payload,)):
+            hit = [i for i, s in enumerate(dims_spec) if any(type(x_) is type(item) and x_ == item for x_ in s[2])]
+            if len(hit) != 1:
+                unknown = True      # not an item of exactly one dimension
+                continue
+            pairs.append((hit[0], item))
+    for i, v in pairs:
+        items = dims_spec[i][2]
+        vs = v if isinstance(v, list) else [v]
+        for one in vs:
+            if not any(type(x_) is type(one) and x_ == one for x_ in items):
+                unknown = True
+        if unknown:
+            continue
+        pos = [next(j for j, x_ in enumerate(items) if type(x_) is type(one) and x_ == one) for one in vs]
+        if i in sel:
+            sel[i] = sel[i] + pos
+        else:
+            sel[i] = pos
+            if not isinstance(v, list):
+                dropped.add(i)
+    for i in list(sel):
+        if len(sel[i]) > 1:
+            dropped.discard(i)
+    key = payload
+    if op == "read":
+        kind, r = run_guarded(lambda: it.call_method(x, "__getitem__", key))
+        if unknown:
+            case.v("index", kind == "raise", f"a key with a label that is not an item of the addressed dimension was accepted ({key!r})", qual)
+            return case
+        if kind != "ok" or not hasattr(r, "f") or not isinstance(r.f.get("values"), SArr):
+            case.v("index", False, f"x[{key!r}] ended with {kind}: {getattr(r, 'msg', r)!s:.120}", qual)
+            return case
+        keep = [i for i in range(len(shape)) if i not in dropped]
+        want_letters = tuple(dims_spec[i][0] for i in keep)
+        got_letters = tuple(d.f["letter"] for d in r.f["dims"].f["dim_list"])
+        rv = r.f["values"]
+        ok = got_letters == want_letters
+        if ok:
+            ranges = [sel.get(i, list(range(shape[i]))) for i in keep]
+            ok = tuple(rv.shape) == tuple(len(rg) for rg in ranges)
+            if ok:
+                for ridx in itertools.product(*[range(len(rg)) for rg in ranges]):
+                    full = [None] * len(shape)
+                    for i in dropped:
+                        full[i] = sel[i][0]
+                    for kk, i in enumerate(keep):
+                        full[i] = ranges[kk][ridx[kk]]
+                    if not (rv.get(ridx) == values.get(tuple(full))):
+                        ok = False
+                        break
+        case.v("index", ok, f"x[{key!r}] over dims {order} does not hold exactly the entries carrying these labels (result dims {got_letters}, expected {want_letters})", qual)
+        return case
+    # write of a number
+    kind, r = run_guarded(lambda: it.call_method(x, "__setitem__", key, rat(7)))
+    if unknown:
+        ok = kind == "raise" and all(a == b for a, b in zip(x.f["values"].data, before))
+        case.v("index", ok, f"a write with a label that is not an item of the addressed dimension was accepted / changed the array ({key!r})", qual)
+        return case
+    if kind != "ok":
+        case.v("index", False, f"x[{key!r}] = 7 ended with {kind}: {getattr(r, 'msg', r)!s:.120}", qual)
+        return case
+    now = x.f["values"]
+    ok = True
+    for idx in itertools.product(*[range(n) for n in shape]):
+        inside = all(idx[i] in sel[i] for i in sel)
+        want = rat(7) if inside else values.get(idx) if False else None
+        got = now.get(idx)
+        if inside:
+            ok = ok and (got == rat(7))
+        else:
+            ok = ok and (got == before[sum(i * s for i, s in zip(idx, S._strides(shape)))])
+    case.v("index", ok, f"x[{key!r}] = 7 over dims {order} did not change exactly the entries carrying these labels", qual)
+    return case
+
+
+def index_exact_jobs(tier):
+    jobs = []
+    for order in (("o", "d", "g"), ("d", "o", "g"), ("g", "d", "o")):
+        for key in (("dict", {"d": "EUR"}), ("dict", {"o": "USA"}), ("dict", {"Destination": "USA"}), ("dict", {"d": "USA", "o": "EUR"}), ("dict", {"d": ["USA", "EUR"]}),
+                    ("item", "y"), ("tuple", ("x", "z")), ("item", "EUR")):
+            for op in ("read", "write"):
+                if op == "read" and isinstance(list(key[1].values())[0] if key[0] == "dict" else None, list):
+                    continue
+                if op == "read" and key[0] == "tuple":
+                    continue
+                jobs.append(("same-items", order, op, key))
+    for order in (("n", "s"), ("s", "n")):
+        for key in (("item", 0), ("tuple", (0, 2)), ("tuple", (2, 0)), ("item", ""), ("tuple", ("", "x")), ("dict", {"n": 0}), ("dict", {"s": ""}), ("dict", {"n": [0, 1]}),
+                    ("tuple", (0, "")), ("item", 5), ("dict", {"n": 7})):
+            for op in ("read", "write"):
+                if op == "read" and (key[0] == "tuple" and len({type(v) for v in key[1]}) == 1 or (key[0] == "dict" and isinstance(list(key[1].values())[0], list))):
+                    continue
+                jobs.append(("falsy-labels", order, op, key))
+    for order in (("t", "a"), ("a", "t")):
+        for key in (("dict", {"t": 2021}), ("dict", {"t": 2020.5}), ("dict", {"t": [2020, 2022.7]}), ("dict", {"t": "2021"}), ("item", 2022), ("item", 2022.5), ("dict", {"Time": 2022, "a": "a1"})):
+            for op in ("read", "write"):
+                if op == "read" and key[0] == "dict" and isinstance(list(key[1].values())[0], list):
+                    continue
+                jobs.append(("typed-years", order, op, key))
+    return jobs
